@@ -8,12 +8,12 @@ open ZodbModel.Mvcc
 
 /-- changing the in-flight slot between states none of which has delivered anything -/
 theorem instInv_infl_change {log infl infl' next next' i x} (v : InstInv log infl next i x)
-    (hn : next ≤ next')
+    (hn : x.ltid < next')
     (hnf : ∀ f, infl = some f → f.phase ≠ .finishing)
     (hnew : ∀ f', infl' = some f' → f'.delivered = [] ∧ x.ltid < f'.tid) :
     InstInv log infl' next' i x :=
   { v with
-    ltid_lt := Nat.lt_of_lt_of_le v.ltid_lt hn
+    ltid_lt := hn
     c2 := fun f' hf' => by
       obtain ⟨h1, h2⟩ := hnew f' hf'
       rw [h1]; exact ⟨fun h => (by cases h), fun _ => h2⟩
@@ -25,9 +25,9 @@ theorem instInv_infl_change {log infl infl' next next' i x} (v : InstInv log inf
     b3 := fun f' hf' hd => by rw [(hnew f' hf').1] at hd; cases hd }
 
 theorem histInv_infl_change {log infl infl' next next' y} (v : HistInv log infl next y)
-    (hn : next ≤ next') (hnew : ∀ f', infl' = some f' → y.before ≤ f'.tid) :
+    (hn : y.before ≤ next') (hnew : ∀ f', infl' = some f' → y.before ≤ f'.tid) :
     HistInv log infl' next' y :=
-  { v with h2 := ⟨Nat.le_trans v.h2.1 hn, hnew⟩ }
+  { v with h2 := ⟨hn, hnew⟩ }
 
 theorem inv_begin {s s' : Sys} {c : Option Nat} {t : Nat} (hinv : Inv s)
     (h : step s (.begin c t) = .ok s') : Inv s' := by
@@ -43,17 +43,18 @@ theorem inv_begin {s s' : Sys} {c : Option Nat} {t : Nat} (hinv : Inv s)
     · show t < t + 1; omega
     · intro T hT; have := g.loglt T hT; show T.tid < t; omega
   · intro i hi
-    apply instInv_infl_change (hinv.inst i hi) (by show s.next ≤ t + 1; omega)
+    apply instInv_infl_change (hinv.inst i hi)
+      (by have := (hinv.inst i hi).ltid_lt; show (s.insts i).ltid < t + 1; omega)
     · intro f hf; rw [hnone] at hf; cases hf
     · intro f' hf'
       simp only [Option.some.injEq] at hf'; subst hf'
       have := (hinv.inst i hi).ltid_lt
       exact ⟨rfl, by show (s.insts i).ltid < t; omega⟩
   · intro hh hlt
-    apply histInv_infl_change (hinv.hist hh hlt) (by show s.next ≤ t + 1; omega)
+    have hb := (hinv.hist hh hlt).h2.1
+    apply histInv_infl_change (hinv.hist hh hlt) (by show (s.hists hh).before ≤ t + 1; omega)
     intro f' hf'
     simp only [Option.some.injEq] at hf'; subst hf'
-    have := (hinv.hist hh hlt).h2.1
     show (s.hists hh).before ≤ t; omega
 
 /-- store / vote / finishEnter: the in-flight record keeps tid, committer and (empty) delivered -/
@@ -69,7 +70,7 @@ theorem inv_infl_update {s : Sys} {f f' : Infl} (hinv : Inv s) (hf : s.infl = so
     rw [htid, hd]
     exact ⟨g0, g1, g2, fun _ => rfl, fun j hj => by cases hj⟩
   · intro i hi
-    apply instInv_infl_change (hinv.inst i hi) (Nat.le_refl _)
+    apply instInv_infl_change (hinv.inst i hi) (hinv.inst i hi).ltid_lt
     · intro f1 hf1; rw [hf] at hf1; simp only [Option.some.injEq] at hf1; subst hf1; exact hp
     · intro f'' hf''
       simp only [Option.some.injEq] at hf''; subst hf''
@@ -77,7 +78,7 @@ theorem inv_infl_update {s : Sys} {f f' : Infl} (hinv : Inv s) (hf : s.infl = so
       have := ((hinv.inst i hi).c2 f hf).2 (by rw [g3 hp]; simp)
       rw [htid]; exact this
   · intro hh hlt
-    apply histInv_infl_change (hinv.hist hh hlt) (Nat.le_refl _)
+    apply histInv_infl_change (hinv.hist hh hlt) (hinv.hist hh hlt).h2.1
     intro f'' hf''
     simp only [Option.some.injEq] at hf''; subst hf''
     rw [htid]; exact (hinv.hist hh hlt).h2.2 f hf
@@ -95,20 +96,24 @@ theorem inv_finishEnter {s s' : Sys} (hinv : Inv s) (h : step s .finishEnter = .
   obtain ⟨f, hf, hp, rfl⟩ := finishEnter_ok h
   exact inv_infl_update hinv hf (by rw [hp]; decide) rfl rfl
 
-/-- dropping the commit lock before the finish section -/
-theorem inv_infl_clear {s : Sys} (hinv : Inv s) (hnf : ∀ f, s.infl = some f → f.phase ≠ .finishing) :
-    Inv { s with infl := none } := by
+/-- dropping the commit lock before the finish section; the tid may be issued again -/
+theorem inv_infl_clear {s : Sys} {f : Infl} (hinv : Inv s) (hf : s.infl = some f)
+    (hnf : f.phase ≠ .finishing) : Inv { s with infl := none, next := f.tid } := by
   have g := hinv.glob
-  refine ⟨⟨g.sorted, g.loglt, g.next_pos, fun f hf => by cases hf⟩, ?_, ?_⟩
+  obtain ⟨g0, g1, g2, g3, g4⟩ := g.infl_ok f hf
+  have hnf' : ∀ f', s.infl = some f' → f'.phase ≠ .finishing := by
+    intro f' hf'; rw [hf] at hf'; simp only [Option.some.injEq] at hf'; subst hf'; exact hnf
+  refine ⟨⟨g.sorted, g2, g0, fun f' hf' => by cases hf'⟩, ?_, ?_⟩
   · intro i hi
-    exact instInv_infl_change (hinv.inst i hi) (Nat.le_refl _) hnf (fun f' hf' => by cases hf')
+    have hl := ((hinv.inst i hi).c2 f hf).2 (by rw [g3 hnf]; simp)
+    exact instInv_infl_change (hinv.inst i hi) hl hnf' (fun f' hf' => by cases hf')
   · intro hh hlt
-    exact histInv_infl_change (hinv.hist hh hlt) (Nat.le_refl _) (fun f' hf' => by cases hf')
+    exact histInv_infl_change (hinv.hist hh hlt) ((hinv.hist hh hlt).h2.2 f hf)
+      (fun f' hf' => by cases hf')
 
 theorem inv_extAbort {s s' : Sys} (hinv : Inv s) (h : step s .extAbort = .ok s') : Inv s' := by
   obtain ⟨f, hf, hp, rfl⟩ := extAbort_ok h
-  apply inv_infl_clear hinv
-  intro f1 hf1; rw [hf] at hf1; simp only [Option.some.injEq] at hf1; subst hf1; exact hp
+  exact inv_infl_clear hinv hf hp
 
 /-- forgetting own changes: `pending := []`, the touched objects are ghostified -/
 theorem instInv_dropCache {log infl next i} {x : Inst} (v : InstInv log infl next i x)
@@ -121,19 +126,27 @@ theorem instInv_dropCache {log infl next i} {x : Inst} (v : InstInv log infl nex
     b3 := fun f hf hd hlt oid hoid => dropOids_none_of_none (v.b3 f hf hd hlt oid hoid)
     b4 := fun oid ser d hc => v.b4 oid ser d (dropOids_some hc).1 }
 
+theorem dropInfl_setInst {s : Sys} {f : Infl} (hf : s.infl = some f) (i : Nat) (x : Inst) :
+    dropInfl (setInst s i x) = setInst { s with infl := none, next := f.tid } i x := by
+  simp only [dropInfl, setInst, hf]
+
 theorem inv_abort {s s' : Sys} {i : Nat} (hinv : Inv s) (h : step s (.abort i) = .ok s') : Inv s' := by
   obtain ⟨hi, hnfb, rfl⟩ := abort_ok h
   dsimp only
   split
   · next hc =>
-    have hnf : ∀ f, s.infl = some f → f.phase ≠ .finishing := by
-      intro f hf hp
-      simp only [committing, hf] at hc
-      simp [inFinishBy, finishing, hf, hp] at hnfb
-      simp [hnfb] at hc
-    have h1 := inv_infl_clear hinv hnf
-    exact inv_setInst (s := { s with infl := none }) h1
-      (instInv_dropCache (h1.inst i hi) [] _)
+    cases hf : s.infl with
+    | none => simp [committing, hf] at hc
+    | some f =>
+      have hnf : f.phase ≠ .finishing := by
+        intro hp
+        simp only [committing, hf] at hc
+        simp [inFinishBy, finishing, hf, hp] at hnfb
+        simp [hnfb] at hc
+      have h1 := inv_infl_clear hinv hf hnf
+      rw [dropInfl_setInst hf]
+      exact inv_setInst (s := { s with infl := none, next := f.tid }) h1
+        (instInv_dropCache (h1.inst i hi) [] _)
   · exact inv_setInst hinv (instInv_dropCache (hinv.inst i hi) [] _)
 
 end Proofs.Mvcc
